@@ -57,4 +57,14 @@ OBLIGATIONS = [
         desc="real DirectoryNode objects from NodeMaker.create_from_cap (DIR2, DIR2-RO, DIR2-MDMF, DIR2-MDMF-RO, DIR2-CHK, DIR2-LIT; same or "
              "separate NodeMaker): same oracle as nodes_real",
         outside="CiphertextFileNode (internal verifier node, not named by the property)"),
+    chx("imm_fields", "C43_h", "h_imm_fields", timeout=T,
+        desc="real ImmutableFileNode objects from NodeMaker.create_from_cap whose CHK caps agree in everything or differ in exactly ONE field "
+             "(key, UEB hash, needed_shares, total_shares, size; all 32 field combinations x 6 choices x same/other NodeMaker): == iff the "
+             "capability strings are equal, != is the negation both ways, equal => equal hash",
+        outside="path-per-input; two values per field"),
+    chx("attenuated_nodes", "C43_h", "h_attenuated", timeout=T,
+        desc="real MutableFileNode / DirectoryNode objects of the SAME object at different authority (SSK, MDMF, DIR2, DIR2-MDMF write cap vs "
+             "its own get_readonly() cap, same or other NodeMaker, either operand order): nodes that compare equal have equal get_uri() and equal "
+             "is_readonly(); write node == write node of the same cap",
+        outside="path-per-input"),
 ]
